@@ -1165,6 +1165,9 @@ class Context(object):
         if local:
             self.addLocal(name, newclass)
         else:
+            # A global definition replaces the meaning at every group level
+            for context in self.contexts[1:]:
+                context.pop(name, None)
             self.addGlobal(name, newclass)
 
     def get_let(self, command):
